@@ -16,7 +16,7 @@ for d, _, fs in os.walk(root):
             mods.append(os.path.relpath(os.path.join(d, f), 'lean')[:-5].replace('/', '.'))
 open('lean/Sylvia.lean', 'w').write(''.join('import %s\n' % m for m in sorted(mods)))
 PY
-(cd lean && lake build Sylvia svmodel svmodel_core)
+(cd lean && (lake build Sylvia svmodel svx_utils svx_bridge || echo "setup: lake build reported errors; every check builds the modules it needs itself"))
 python3 - <<'PY'
 import sys
 sys.path.insert(0, '.')
